@@ -252,6 +252,35 @@ def run(tier, seed, opens):
                 except Exception as e:
                     fail('restore', {'wallet': {'witness_type': wt, 'network': net, 'seed': sd.hex()}}, 'raised %s: %s' % (type(e).__name__, str(e)[:160]), 'no exception')
             w.session.close()
+        # wallets created from a mnemonic sentence and from an extended private key: same addresses as BIP39 -> BIP32 derivation gives
+        from spec import bip39 as _bip39
+        from bitcoinlib.mnemonic import Mnemonic
+        for j, (wt, net) in enumerate((('segwit', 'bitcoin'), ('legacy', 'testnet'), ('p2sh-segwit', 'litecoin'))):
+            cases += 1
+            try:
+                ent = bytes(rng.getrandbits(8) for _ in range(16))
+                words = Mnemonic().to_mnemonic(ent)
+                sd2 = _bip39.seed(words, '')
+                wm = Wallet.create('c09-mn-%d' % j, keys=words, network=net, witness_type=wt, db_uri='sqlite:///' + os.path.join(tmp, 'mn%d.sqlite' % j))
+                xprv = HDKey.from_seed(sd2, network=net, witness_type=wt).wif_private()
+                wx = Wallet.create('c09-xp-%d' % j, keys=xprv, network=net, witness_type=wt, db_uri='sqlite:///' + os.path.join(tmp, 'xp%d.sqlite' % j))
+                coin, purpose, H = NETS[net]['coin'], PURPOSE[wt], 0x80000000
+                bad = []
+                for ch in (0, 1):
+                    for i in range(3):
+                        sk, _ = derive(sd2, [purpose + H, coin + H, H, ch, i])
+                        want = address(_ser_p(ec.mul_g(sk)), wt, net)
+                        got = (wm.key_for_path([ch, i]).address, wx.key_for_path([ch, i]).address)
+                        if got != (want, want):
+                            bad.append((ch, i, got, want))
+                if bad:
+                    fail('restore from mnemonic / extended key', {'witness_type': wt, 'network': net, 'mnemonic': words}, repr(bad[:2]), 'BIP39 + BIP32 addresses')
+                else:
+                    ok += 1
+                wm.session.close()
+                wx.session.close()
+            except Exception as e:
+                fail('restore from mnemonic / extended key', {'witness_type': wt, 'network': net}, 'raised %s: %s' % (type(e).__name__, str(e)[:160]), 'no exception')
     finally:
         shutil.rmtree(tmp, ignore_errors=True)
     res = {'contract': 'wallet-keys[bounded]', 'target': 'Wallet.new_key(s) / new_key_change / get_key(s) / key_for_path / new_account / create',
